@@ -478,10 +478,11 @@ func init() {
 		Real:        []string{"common.ZeroCopySink", "common.ZeroCopySource", "common/serialization Read*/Write*/byteXReader", "common.Address / common.Uint256 (de)serialisers", "common.SafeAdd"},
 		Stub:        []string{"byte stream (simulated reader: chunking, stalls, injected I/O error, early EOF)"},
 		Assumptions: []string{"allocation guard: decoding a stream of n bytes may allocate at most 4 MiB + 4n (the property text promises no figure; the guard exists to catch length-prefix attacks, e.g. a 0xFFFFFFFF prefix allocating 4 GiB)", "a boolean byte other than 0/1 may be rejected (ZeroCopySource) or read as true (serialization.ReadBool); the property does not say which", "honest byte strings are at most 65537 bytes long; longer lengths occur only as lying prefixes"},
-		QuickRuns:   2400, ThoroughRuns: 160000, QuickCap: 60, ThoroughCap: 800,
+		QuickRuns:   1600, ThoroughRuns: 120000, QuickCap: 60, ThoroughCap: 800,
 		RequiredProbes: []string{"short_read_inside_length_prefix", "prefix_claims_more_than_stream", "truncated_inside_value", "io_error_inside_value", "noncanonical_varuint_accepted", "slow_path_2MiB_prefix"},
 		Generate:       genC01,
 		Execute:        execC01,
+		NoMinimise:     noMin,
 	})
 }
 
